@@ -37,3 +37,5 @@ def run(ctx, R):
     genreset.rule_gen_reset(ctx, R, 'rv64')
     rvhsem.rule_hsem(ctx, R)
     rvhsem.rule_ss_hsem(ctx, R)
+    jit.rule_lw_value(ctx, R, 'rv64')
+    rvhsem.rule_mem_hsem(ctx, R)
